@@ -109,6 +109,56 @@ pub struct WireOp {
     pub pid: PidForm,
     pub ct: CtForm,
     pub body: BodyForm,
+    /// Content-Encoding header on an upload: 0 none, 1 `identity`, 2 `gzip` with a body that IS a
+    /// valid gzip stream, 3 `deflate` with a valid zlib stream, 4 `gzip` with a body that is not
+    /// gzip, 5 an unknown coding, 6 `br` with arbitrary bytes. The payload is opaque (client-side
+    /// encrypted) and must come back exactly as sent, so: refuse, or store the wire bytes.
+    #[serde(default)]
+    pub enc: u8,
+}
+
+fn stored_blocks(d: &[u8], out: &mut Vec<u8>) {
+    if d.is_empty() {
+        out.extend([1u8, 0, 0, 0xff, 0xff]);
+        return;
+    }
+    let n = d.chunks(65535).count();
+    for (i, c) in d.chunks(65535).enumerate() {
+        out.push(if i + 1 == n { 1 } else { 0 });
+        let l = c.len() as u16;
+        out.extend(l.to_le_bytes());
+        out.extend((!l).to_le_bytes());
+        out.extend(c);
+    }
+}
+
+/// A valid gzip stream (stored blocks only) whose content is `d`.
+fn gzip_stored(d: &[u8]) -> Vec<u8> {
+    let mut out = vec![0x1f, 0x8b, 8, 0, 0, 0, 0, 0, 0, 0xff];
+    stored_blocks(d, &mut out);
+    let mut crc = 0xffff_ffffu32;
+    for b in d {
+        crc ^= *b as u32;
+        for _ in 0..8 {
+            crc = if crc & 1 != 0 { (crc >> 1) ^ 0xedb8_8320 } else { crc >> 1 };
+        }
+    }
+    out.extend((!crc).to_le_bytes());
+    out.extend((d.len() as u32).to_le_bytes());
+    out
+}
+
+/// A valid zlib stream (what `Content-Encoding: deflate` means) whose content is `d`.
+fn zlib_stored(d: &[u8]) -> Vec<u8> {
+    let mut out = vec![0x78, 0x01];
+    stored_blocks(d, &mut out);
+    let (mut a, mut b) = (1u32, 0u32);
+    for x in d {
+        a = (a + *x as u32) % 65521;
+        b = (b + a) % 65521;
+    }
+    out.extend(((b << 16) | a).to_be_bytes());
+    out
 }
 
 #[derive(Clone, Debug, Serialize, Deserialize, PartialEq)]
@@ -195,11 +245,12 @@ fn gen_wire_op(r: &mut Rng, n_clients: u8, page: u32, allow_big: bool) -> WireOp
             let ch = ops::gen_chunking(r, len);
             BodyForm::Normal(py, ch)
         },
+        enc: 0,
     };
     let is_post = matches!(route, Route::AddVersion | Route::AddSnapshot);
     let has_pid = matches!(route, Route::AddVersion | Route::AddSnapshot | Route::GetChild);
     for _ in 0..defects {
-        match r.weighted(&[30, if has_pid { 22 } else { 0 }, if is_post { 16 } else { 0 }, if is_post { 22 } else { 0 }, 10]) {
+        match r.weighted(&[30, if has_pid { 22 } else { 0 }, if is_post { 16 } else { 0 }, if is_post { 22 } else { 0 }, 10, if is_post { 7 } else { 0 }]) {
             0 => {
                 w.cid = *r.pick(&[
                     CidForm::Absent, CidForm::Empty, CidForm::NonAscii, CidForm::HighBytes, CidForm::TooShort, CidForm::TooLong, CidForm::Garbage,
@@ -235,7 +286,8 @@ fn gen_wire_op(r: &mut Rng, n_clients: u8, page: u32, allow_big: bool) -> WireOp
                     _ => BodyForm::Limit(-1, Chunking::Fixed(1 << 22)),
                 };
             }
-            _ => w.method = *r.pick(&[MethodForm::Swapped, MethodForm::Put, MethodForm::Delete, MethodForm::Head, MethodForm::Options, MethodForm::Patch]),
+            4 => w.method = *r.pick(&[MethodForm::Swapped, MethodForm::Put, MethodForm::Delete, MethodForm::Head, MethodForm::Options, MethodForm::Patch]),
+            _ => w.enc = *r.pick(&[1u8, 2, 2, 3, 3, 4, 5, 6]),
         }
     }
     w
@@ -608,6 +660,17 @@ fn build(plan: &WirePlan, w: &World, op: &WireOp, cur_allow: &Option<HashSet<Uui
             headers.push(("Content-Type".into(), proto_ct.to_uppercase().into_bytes()))
         }
     }
+    if is_post && op.enc != 0 {
+        worse(Class::Ambiguous);
+        let v: &[u8] = match op.enc {
+            1 => b"identity",
+            2 | 4 => b"gzip",
+            3 => b"deflate",
+            5 => b"x-verif-unknown",
+            _ => b"br",
+        };
+        headers.push(("Content-Encoding".into(), v.to_vec()));
+    }
     // body
     let mut chunks: Vec<Bytes> = vec![];
     let mut fail_after = None;
@@ -616,7 +679,16 @@ fn build(plan: &WirePlan, w: &World, op: &WireOp, cur_allow: &Option<HashSet<Uui
     let mut big = false;
     match &op.body {
         BodyForm::Normal(py, ch) => {
-            let d = ops::payload(plan.seed, py);
+            let mut d = ops::payload(plan.seed, py);
+            if is_post && op.enc != 0 {
+                // the wire bytes ARE the upload: a body that happens to be a valid compressed stream
+                // is still an opaque payload
+                match op.enc {
+                    2 => d = Arc::new(gzip_stored(&d)),
+                    3 => d = Arc::new(zlib_stored(&d)),
+                    _ => {}
+                }
+            }
             chunks = chunk_body(&Bytes::from(d.as_ref().clone()), ch);
             data = Some(d);
         }
@@ -673,7 +745,7 @@ fn build(plan: &WirePlan, w: &World, op: &WireOp, cur_allow: &Option<HashSet<Uui
             chunks.truncate(1);
         }
     }
-    let label = format!("{} {} cid={:?} pid={:?} ct={:?} body={}", method, if path.len() > 80 { &path[..80] } else { &path }, op.cid, op.pid, op.ct, match &op.body {
+    let label = format!("{} {} cid={:?} pid={:?} ct={:?}{} body={}", method, if path.len() > 80 { &path[..80] } else { &path }, op.cid, op.pid, op.ct, if op.enc != 0 { format!(" content-encoding#{}", op.enc) } else { String::new() }, match &op.body {
         BodyForm::Normal(p, _) => format!("{}B", p.len),
         BodyForm::Limit(d, _) => format!("limit{d:+}"),
         o => format!("{o:?}").chars().take(24).collect(),
